@@ -57,12 +57,12 @@ func genSeq(p seqParams) func(r *rand.Rand, tier string) *Case {
 				k := p.kinds[r.IntN(len(p.kinds))]
 				key := base + r.IntN(keyspace)
 				cur := mm[sp.Name]
-				if (k == "remove" || k == "update" || k == "get" || k == "updkey" || k == "findfirst" || k == "finddesc" || k == "findid") && len(cur) > 0 && r.IntN(4) != 0 {
+				if (k == "remove" || k == "update" || k == "updcur" || k == "rmcur" || k == "get" || k == "updkey" || k == "findfirst" || k == "finddesc" || k == "findid") && len(cur) > 0 && r.IntN(4) != 0 {
 					key = cur[r.IntN(len(cur))].K
 				}
 				op := Op{K: k, S: si, Key: key}
 				switch k {
-				case "add", "addif", "upsert", "update":
+				case "add", "addif", "upsert", "update", "updcur":
 					op.Val = fmt.Sprintf("%s.%d", tx.Name, i)
 					if p.pad != nil {
 						op.Pad = p.pad(r)
@@ -157,7 +157,7 @@ func oracleSeq(c *Case, res *Result) []Violation {
 			}
 			desc := fmt.Sprintf("%s op %d %s(key=%d) on %s (slot %d unique=%v balance=%v vmode=%d)", tx.Name, i, op.K, op.Key, sp.Name, sp.Slot, sp.Unique, sp.Balance, sp.ValueMode)
 			switch op.K {
-			case "add", "addif", "upsert", "update", "updkey", "remove", "find":
+			case "add", "addif", "upsert", "update", "updkey", "remove", "find", "updcur", "rmcur":
 				if got.OK != wok {
 					add("return-value/"+op.K+vtag(sp), fmt.Sprintf("%s returned %v, model says %v; model items: [%s]", desc, got.OK, wok, kvString(mm[sp.Name])))
 					poisoned[sp.Name] = true
@@ -335,7 +335,7 @@ func nontrivialSeq(c *Case, res *Result) string {
 	return fmt.Sprintf("%x", fnv(b.String()))
 }
 
-var seqKinds17 = []string{"add", "add", "add", "addif", "upsert", "update", "updkey", "remove", "remove", "find", "get", "count", "scan", "rscan"}
+var seqKinds17 = []string{"add", "add", "add", "addif", "upsert", "update", "updcur", "updkey", "remove", "remove", "rmcur", "find", "get", "count", "scan", "rscan"}
 var seqKinds18 = []string{"add", "add", "add", "remove", "upsert", "findfirst", "finddesc", "findid", "range", "rrange", "range", "rrange", "get"}
 
 func init() {
@@ -384,7 +384,7 @@ func init() {
 				}
 				return out
 			},
-			kinds: []string{"add", "add", "add", "addif", "upsert", "upsert", "update", "update", "remove", "remove", "get", "scan", "count"}, keyspaces: []int{8, 30, 200},
+			kinds: []string{"add", "add", "add", "addif", "upsert", "upsert", "update", "update", "updcur", "remove", "remove", "rmcur", "get", "scan", "count"}, keyspaces: []int{8, 30, 200},
 			txns:      func(r *rand.Rand) int { return 2 + r.IntN(8) },
 			opsPerTxn: func(r *rand.Rand) int { return pick(r, 1, 4, 12, 40) },
 			pad: func(r *rand.Rand) int {
